@@ -1,6 +1,11 @@
 (* Runs C13 histories on the model extracted from Coq (c13x.ml).  Same line format and output as
-   harness/c13_link.c. *)
+   harness/c13_link.c.  Environment variable C13_MODE: letter 'p' = the pinned tree's variant of a
+   rejected load (step false), letter 's' = a rejected load ends the history. *)
 open C13x
+
+let mode = try Sys.getenv "C13_MODE" with Not_found -> ""
+let pinned = String.contains mode 'p'
+let stop_at_rejection = String.contains mode 's'
 
 let rec nat_of_int n = if n <= 0 then O else S (nat_of_int (n - 1))
 let rec int_of_nat = function O -> 0 | S n -> 1 + int_of_nat n
@@ -20,29 +25,36 @@ let parse_op s =
   | "L" :: ds -> Some (Load (List.filter_map parse_decl ds))
   | ["X"; n; a] -> Some (LoadExternal (nat_of_int (int_of_string n), nat_of_int (int_of_string a)))
   | ["R"; b] -> Some (SetRedef (int_of_string b <> 0))
-  | "K" :: mask :: _ ->
+  | "K" :: mask :: rest ->
     let m = int_of_string mask in
-    Some (Link (fun n -> let i = int_of_nat n in
-                 if i < 8 && (m lsr i) land 1 = 1 then Some (nat_of_int (100 + i)) else None))
+    let r = (fun n -> let i = int_of_nat n in
+              if i < 8 && (m lsr i) land 1 = 1 then Some (nat_of_int (100 + i)) else None) in
+    if rest = ["n"] then Some (LinkNoIface r) else Some (Link r)
   | _ -> failwith ("bad op: " ^ s)
 
 let err_name = function
   | ERepeatedDecl -> "repeated_decl" | EImportExport -> "import_export"
   | EUndeclaredOpRef -> "undeclared_op_ref" | EInternal -> "internal"
 
-let show_binding ((k, n), d) =
+(* [live id]: the module's interface has been set (its functions can be called); [values]: print
+   what calling/reading through an import yields *)
+let show_binding ?(nulled=false) live values ((k, n), d) =
   let kc = match k with KImport -> "i" | KExport -> "e" | KForward -> "f" | _ -> "?" in
   let n = int_of_nat n in
   let tag, v = match d with
     | None -> "null", None
-    | Some (DExt a) -> Printf.sprintf "X%d" (int_of_nat a), Some (9000 + int_of_nat a)
+    | Some (DExt a) -> Printf.sprintf "X%d" (int_of_nat a),
+                       if nulled then None else Some (string_of_int (9000 + int_of_nat a))
     | Some (DMod (id, idx, k)) ->
       (match k with
-       | KFunc -> Printf.sprintf "M%d.%d" (int_of_nat id) (int_of_nat idx), Some (1000 + 16 * int_of_nat id + n)
-       | KData -> Printf.sprintf "M%d.%d" (int_of_nat id) (int_of_nat idx), Some (5000 + 16 * int_of_nat id + n)
+       | KFunc -> Printf.sprintf "M%d.%d" (int_of_nat id) (int_of_nat idx),
+                  if not (live (int_of_nat id)) then Some "dead"
+                  else if nulled then None
+                  else Some (string_of_int (1000 + 16 * int_of_nat id + n))
+       | KData -> Printf.sprintf "M%d.%d" (int_of_nat id) (int_of_nat idx), Some (string_of_int (5000 + 16 * int_of_nat id + n))
        | _ -> "null", None) in
   match k, v with
-  | KImport, Some v -> Printf.sprintf "%s%d=%s/%d" kc n tag v
+  | KImport, Some v when values -> Printf.sprintf "%s%d=%s/%s" kc n tag v
   | _ -> Printf.sprintf "%s%d=%s" kc n tag
 
 (* for a Load that the model rejects with repeated_decl: is the definition it clashes with an
@@ -66,34 +78,47 @@ let clash_mark st o =
      | Inr _ -> "")
   | _ -> ""
 
+let show_res res =
+  "res=[" ^ String.concat "," (List.map (fun (n, a) ->
+      Printf.sprintf "n%d:%d" (int_of_nat n) (int_of_nat a)) res) ^ "]"
+
 let run_history line =
   let ops = List.filter_map parse_op (String.split_on_char ';' line) in
   let b = Buffer.create 256 in
   let st = ref init in
+  let nulled = ref [] in   (* modules that went through a NULL-interface link *)
   let first = ref true in
   (try
      List.iter (fun o ->
          let before = !st in
-         let (s', out) = step !st o in
+         let (s', out) = step (not pinned) !st o in
          st := s';
          (match out with
           | OSkipped -> raise Exit
           | _ -> ());
          if not !first then Buffer.add_string b " | ";
          first := false;
+         let live id = List.exists (fun (i, _) -> int_of_nat i = id) s'.linked in
          match out with
          | OOk -> Buffer.add_string b "ok"
-         | OErr ERepeatedDecl -> Buffer.add_string b ("E:repeated_decl" ^ clash_mark before o)
+         | OErr ERepeatedDecl ->
+           Buffer.add_string b ("E:repeated_decl" ^ clash_mark before o);
+           if stop_at_rejection && not s'.dead then raise Exit
          | OErr e -> Buffer.add_string b ("E:" ^ err_name e)
+         | OLinkFailed res -> Buffer.add_string b ("E:undeclared_op_ref " ^ show_res res)
          | OLinked (_, res) ->
-           Buffer.add_string b "ok res=[";
-           Buffer.add_string b (String.concat "," (List.map (fun (n, a) ->
-               Printf.sprintf "n%d:%d" (int_of_nat n) (int_of_nat a)) res));
-           Buffer.add_string b "]";
+           Buffer.add_string b ("ok " ^ show_res res);
            List.iter (fun (id, bs) ->
                Buffer.add_string b (Printf.sprintf " m%d{%s}" (int_of_nat id)
-                                      (String.concat " " (List.map show_binding bs))))
+                                      (String.concat " " (List.map (show_binding ~nulled:(List.mem id !nulled) live true) bs))))
              s'.linked
+         | OBound (bs, res) ->
+           Buffer.add_string b ("ok " ^ show_res res);
+           List.iter (fun (id, _) -> if not (List.mem id !nulled) then nulled := id :: !nulled) bs;
+           List.iter (fun (id, bs) ->
+               Buffer.add_string b (Printf.sprintf " p%d{%s}" (int_of_nat id)
+                                      (String.concat " " (List.map (show_binding live false) bs))))
+             bs
          | OSkipped -> ()) ops
    with Exit -> ());
   print_endline (Buffer.contents b)
